@@ -46,7 +46,8 @@ type rstmt struct {
 	Src, Dst []string
 	SrcArrow bool
 	DstArrow bool
-	Idx      int    // eref; -1 = [*]
+	Ensure   []string // a container the statement declares by being written inside it (`c: {…}`)
+	Idx      int      // eref; -1 = [*]
 	Op       string // eref: label | null | stroke
 	OpVal    string
 }
@@ -125,6 +126,9 @@ func (root *rnode) walk(f func(n *rnode)) {
 
 // apply returns "error" when the reference says the statement is an error.
 func (root *rnode) apply(i int, s rstmt) string {
+	if len(s.Ensure) > 0 {
+		root.ensure(s.Ensure)
+	}
 	switch s.Kind {
 	case "decl":
 		n := root.ensure(s.Path)
